@@ -517,6 +517,12 @@ def _clean_up_state(state: State) -> None:
                 and value.uid not in new_action_dict
             ):
                 new_action_dict.update({value.uid: state.actions[value.uid]})
+    # An action that has not finished yet can still produce events that any flow may match on using
+    # the action's start arguments (e.g. the Finished event of an action that was stopped when the
+    # flow that started it ended)
+    for action_uid, action in state.actions.items():
+        if action.status != ActionStatus.FINISHED and action_uid not in new_action_dict:
+            new_action_dict.update({action_uid: action})
     state.actions = new_action_dict
 
 
